@@ -43,6 +43,14 @@ CHECKS.update({
    text="Every message never hit by a fault, every reliable-stream and every DCEP message must be delivered; after heal + bound the sender's buffered amount is 0 and both advertised windows are back to the full buffer; FORWARD-TSN never covers unacknowledged reliable/DCEP data and names only sequence numbers of covered ordered (or flagged-unordered) messages.",
    note="'Not hit by a fault' is the executable reading of 'every chunk reached the receiver while its window was open'.", ref="6/C07"),
 })
+CHECKS.update({
+ "C02": dict(level="exploration", technique="property-based testing (rapid): two-endpoint simulation with blackouts, SACK-only loss, paused readers (zero window), wide reordering and the wrap flood; bounded-liveness oracle in virtual time",
+   text="Generated finite disturbance prefixes followed by a healed network; by last disturbance + 4 RTO.max + drain bound (virtual time) every reliable message must be read and the association-level and per-stream buffered amounts must be 0; a synctest deadlock or event overrun is reported as a stall.",
+   note="Liveness is bounded liveness with a generous scenario-derived bound; message sizes respect the statement's precondition (largest in-progress messages fit half the receive buffer).", ref="6/C02"),
+ "C04": dict(level="fault_enumeration", technique="exhaustive enumeration of <=k packet faults (drop/duplicate/delay) over the first 8 packets of each direction x roles x option combinations, plus rapid-sampled denser schedules, stale re-injection and failure cases, in the two-endpoint simulation",
+   text="All schedules with <=2 (quick) / <=3 (thorough, all 16 option combinations) faults over the first 8 packets per direction for client/server and INIT-collision starts are enumerated; both sides must establish, agree on interleaving, forward-TSN variant and zero-checksum direction, exchange data, survive re-injection of every handshake packet and a 5-minute idle period; silent peer and closed transport make the connect calls return an error in bounded virtual time.",
+   note="exhaustive only for the stated <=k sub-space; beyond it sampled. A hang on library locks (watchdog) counts as a violation.", ref="6/C04"),
+})
 NOT_YET = {}
 props = [json.loads(l) for l in open(os.path.join(V, "properties.jsonl"))]
 checks = []
